@@ -7,23 +7,21 @@ From BBLib Require Import NumSig Tridiag Reservoir ReservoirThms SolverOracle.
 Import ListNotations.
 Open Scope R_scope.
 
-Theorem C04_accepted_steps_have_small_residual :
-  forall (solve : list (R * R * R) -> list R -> list R * nat)
+Theorem C04_stored_steps_have_small_residual :
+  forall (solve : list (R * R * R) -> list R -> list R * nat) (direct : list (R * R * R) -> list R -> list R)
          (within_tol : list (R * R * R) -> list R -> list R -> Prop),
     (forall rows b x, solve rows b = (x, 0%nat) -> within_tol rows b x) ->
-  forall alpha_s m_i dx2 times mf prev field,
-    run_o solve alpha_s m_i dx2 times mf prev = Some field ->
-    steps_ok within_tol alpha_s m_i dx2 times mf prev field.
-Proof. exact accepted_steps_have_small_residual. Qed.
-Print Assumptions C04_accepted_steps_have_small_residual.
+    (forall rows b, within_tol rows b (direct rows b)) ->
+  forall alpha_s m_i dx2 times mf prev,
+    steps_ok within_tol alpha_s m_i dx2 times mf prev (run_o solve direct alpha_s m_i dx2 times mf prev).
+Proof. intros. now apply stored_steps_have_small_residual. Qed.
+Print Assumptions C04_stored_steps_have_small_residual.
 
-Theorem C04_nonconverged_never_accepted :
-  forall (solve : list (R * R * R) -> list R -> list R * nat) alpha_s m_i dx2 t0 t1 tt f0 ft prev x k,
-    solve (fst (step_system alpha_s m_i f0 ((t1 - t0) / dx2) prev))
-          (snd (step_system alpha_s m_i f0 ((t1 - t0) / dx2) prev)) = (x, S k) ->
-    run_o solve alpha_s m_i dx2 (t0 :: t1 :: tt) (f0 :: ft) prev = None.
-Proof. exact nonconverged_never_accepted. Qed.
-Print Assumptions C04_nonconverged_never_accepted.
+Theorem C04_nonconverged_iterate_never_stored :
+  forall (solve : list (R * R * R) -> list R -> list R * nat) (direct : list (R * R * R) -> list R -> list R) rows b x k,
+    solve rows b = (x, S k) -> accept solve direct rows b = direct rows b.
+Proof. exact nonconverged_iterate_never_stored. Qed.
+Print Assumptions C04_nonconverged_iterate_never_stored.
 
 (* with an exact solver the accepted level *is* the model's Thomas solution (uniqueness) *)
 Theorem C04_exact_update_is_unique :
